@@ -81,7 +81,7 @@ def reachMpFp (p : Profile) (loc rem : List Cap) (f : Fam) (v6 : Bool) (attrs : 
     (hattrs' : encodeAttrs p (negotiate loc rem).twoByte fin 0 = .ok (ab, ab.length))
     (h1 : hasCode 1 fin = true) (h2 : hasCode 2 fin = true)
     (hmp : ¬ (f = Fam.ipv4 ∧ (!(negotiate loc rem).extNh) = true)) (hf : isIpFam f = some v6)
-    (hfa : f.afi < 65536) (hfs : f.safi < 256) (hnh : NhMp nh)
+    (hfa : f.afi < 65536) (hfs : f.safi < 256) (hnh : NhMp f nh)
     (hc : CodecPair (negotiate loc rem) (negotiate rem loc) f) :
     UpdFamFp p loc rem (.reach f (some nh) attrs es0) where
   toUpdFam := reachMpFam p (negotiate loc rem) (negotiate rem loc) f v6 attrs es0 nh ab fin P hattrs hmp hf hfa hfs hnh hc
